@@ -415,14 +415,54 @@ func cmdCheck(args []string) {
 		viols = append(viols, violation{sm, sm.Status})
 	}
 	// obligations the ledger expects but that were not generated (proof must not pass by disappearing)
+	ledgerMoved := 0
 	for _, n := range ledger[pid] {
 		if _, ok := byName[n]; !ok {
 			if isKnown(n) != nil {
 				continue
 			}
+			if eng != nil && !ledgerClauseExists(eng, n) {
+				// the clause that produced this obligation is no longer in the annotation files (a maintainer renamed,
+				// renumbered or moved it together with the code): nothing silently stopped applying
+				ledgerMoved++
+				continue
+			}
 			counted++
 			viols = append(viols, violation{&oblSummary{Name: n, Kind: "missing", Status: "missing", Desc: "obligation recorded in the ledger was not generated (function or contract clause disappeared, or the contract no longer applies)"}, "missing"})
 		}
+	}
+	// a contract that attaches to no function (renamed or deleted code, annotation file not updated): nothing of it
+	// is checked
+	if eng != nil {
+		var orphan []string
+		for k, con := range eng.contracts.Funcs {
+			if con.Kind != "func" && con.Kind != "" {
+				continue
+			}
+			if len(eng.fnByKey[k]) > 0 || eng.sourceHasFunc(k) {
+				continue
+			}
+			for _, pat := range ps.Funcs {
+				if matchKey(pat, k) {
+					orphan = append(orphan, k)
+					break
+				}
+			}
+		}
+		sort.Strings(orphan)
+		for _, k := range orphan {
+			counted++
+			viols = append(viols, violation{&oblSummary{Name: k + "/contract-without-function#1", Kind: "missing", Status: "undecided", Func: k, Desc: "the annotation file holds a contract for " + k + " but the package has no such function (renamed, renumbered or removed without the matching edit of the annotation file): nothing of this contract is checked", Contract: true}, "undecided"})
+		}
+	}
+	// a path of a function under contract that left the supported subset: what follows on it was not checked
+	for _, u := range sortedKeys(unsup) {
+		fn := u
+		if i := strings.Index(u, ": "); i >= 0 {
+			fn = u[:i]
+		}
+		counted++
+		viols = append(viols, violation{&oblSummary{Name: fn + "/unsupported#" + fmt.Sprint(len(viols)+1), Kind: "unsupported", Status: "undecided", Func: fn, Desc: "a path of this function uses a construct outside the verifier's subset, the obligations after that point were not generated: " + u, Contract: true}, "undecided"})
 	}
 	// vacuity: a call whose post-state is unsatisfiable although its pre-state was satisfiable
 	for _, site := range vacConfirmed {
@@ -733,6 +773,59 @@ func keepObligation(ps *PropSpec, o *Obligation) bool {
 			}
 		}
 		return false
+	}
+	return true
+}
+
+// ledgerClauseExists: does the contract clause that produced the ledger entry `name` still exist in the annotation
+// files as loaded now? A ledger entry only flags a clause that is still written down but no longer yields its
+// obligation (function gone, loop gone, call gone, path generation aborted). When the clause itself is gone, the
+// annotation file was edited together with the code, which is the maintainer's way of saying where it went.
+func ledgerClauseExists(eng *Engine, name string) bool {
+	slash := strings.Index(name, "/")
+	if slash < 0 {
+		return true
+	}
+	key, rest := name[:slash], name[slash+1:]
+	con := eng.contracts.Funcs[key]
+	if con == nil {
+		return false
+	}
+	hash := strings.LastIndex(rest, "#")
+	if hash < 0 {
+		return true
+	}
+	kind, idx := rest[:hash], rest[hash+1:]
+	if dot := strings.Index(idx, "."); dot >= 0 {
+		idx = idx[:dot]
+	}
+	k, err := strconv.Atoi(idx)
+	if err != nil || k < 1 {
+		return true
+	}
+	loopOf := func(prefix string) (int, bool) {
+		if !strings.HasPrefix(kind, prefix) {
+			return 0, false
+		}
+		n, err := strconv.Atoi(strings.TrimPrefix(kind, prefix))
+		return n, err == nil
+	}
+	switch {
+	case kind == "post":
+		return len(con.Ensures) >= k
+	case kind == "exit":
+		return len(con.Exits) >= k
+	case strings.HasPrefix(kind, "callsite:"):
+		return len(con.CallSites) >= k && con.CallSites[k-1].Callee == strings.TrimPrefix(kind, "callsite:")
+	}
+	if n, ok := loopOf("inv-entry:L"); ok {
+		return len(con.LoopInv[n]) >= k
+	}
+	if n, ok := loopOf("inv-preserve:L"); ok {
+		return len(con.LoopInv[n]) >= k
+	}
+	if n, ok := loopOf("backedge:L"); ok {
+		return len(con.BackEdges[n]) >= k
 	}
 	return true
 }
